@@ -22,6 +22,7 @@ RULE = (
     "(oracles/plfun.py). Stability: all pairs of diagrams of <= n bars on {0..4}: sup-norm of the "
     "landscape difference <= bottleneck. state = one function (operand or combination); transition = "
     "one persim call; non-trivial = the function has a segment crossing zero or a negative value."
+    " Norms also as the first operation on compute=False landscapes (both classes)."
 )
 ASSUMPTIONS = [
     "the function a landscape object represents is read from its own critical pairs / values (arithmetic itself is C09's subject)",
